@@ -256,8 +256,15 @@ def recursion_rule(chk, prog, cfg, bodies):
         chk.floor("recursive parser functions [A]", len(rec_fns), 3)
 
 
+def repeatable(prog, chk, cfg):
+    """functions that run once per token / element: the recursive parser functions and everything they call"""
+    rec = chk.extra.get("recursive_functions", {}).get(cfg, [])
+    return prog.reach_bodies([r for r in rec if r in prog.bodies]) if rec else set()
+
+
 def alloc_rule(chk, prog, cfg, bodies):
     n = 0
+    n_rest = [0]
     seen_sites = {}
     for p in sorted(bodies):
         b = prog.bodies[p]
@@ -274,6 +281,17 @@ def alloc_rule(chk, prog, cfg, bodies):
                 size_op = t["args"][0]
             d = describe(prog, b, size_op)
             srcs = [c for c in core.desc_calls(d) if re.search(LENGTH_SRC, c[1])]
+            # a buffer sized by what is LEFT of the input (size_hint / count / as_str().len() of the input cursor), allocated once per token or
+            # element (the function runs inside the parser's recursion): the values of one document then hold memory quadratic in its length
+            rest = [c for c in core.desc_calls(d) if re.search(r"(Iterator>?::size_hint|Iterator::size_hint|Iterator>?::count|Iterator::count|Chars::<'a>::as_str|Chars::as_str|ExactSizeIterator::len|ExactSizeIterator>::len)$", c[1])]
+            if rest:
+                n_rest[0] += 1
+                rep = repeatable(prog, chk, cfg)
+                if p in rep:
+                    chk.ob("ALLOC", p, f"allocation per token sized by the remaining input: {t['callee'].split('::')[-1]} sized by {'/'.join(sorted(set(c[1].split('::')[-1] for c in rest)))}", False,
+                           f"{t['callee'].split('::')[-1]}({panics.short_desc(d)}): every token / element reserves as much as is left of the input, so a document of n bytes "
+                           "holding many small values keeps O(n^2) bytes allocated: memory is no longer bounded by a constant multiple of the bytes supplied",
+                           where=b.where(blk), cfg=cfg)
             if not srcs:
                 continue
             n += 1
